@@ -1,5 +1,6 @@
 import HapVerif.Model.C05
 import HapVerif.Drv.Common
+import HapVerif.Drv.C05Faults
 /-!
 Driver for C05.  Case line:
 
@@ -11,6 +12,8 @@ ops: `aX.C.S` AcquireBackend(name X) + fill content (cfg C, S empty slots) when 
 `Instance.HAProxyUpdate`).  One observation per op:
 `items|add|del|changedShards|disk`, entries `name:cfg:slots` joined by `+`, files `k=entries`
 joined by `,`, `-` = empty.
+
+mode `fx` (histories with failed updates): see Drv/C05Faults.lean.
 -/
 namespace HapVerif.C05
 open HapVerif.Drv
@@ -251,6 +254,7 @@ def handleMaps (p : String) (ops : String) (impl : String) : Verdict :=
 def handle (args : List String) (impl : String) : Verdict :=
   match args with
   | ["maps", _n, p, ops] => handleMaps p ops impl
+  | ["fx", q, n, shards, ops] => C05F.handleFx q n shards ops impl
   | [mode, n, shards, ops] =>
     match n.toNat?, parseList parseNat? shards "." with
     | some n, some shl =>
